@@ -3,6 +3,8 @@
 -/
 import Stevia.Proofs.TreeState
 import Stevia.Proofs.HashSetState
+import Stevia.Proofs.GenTreeAlloc32
+import Stevia.Proofs.GenTreeAlloc8
 
 namespace Stevia.C07
 open Stevia
@@ -54,5 +56,21 @@ theorem hset_fill {γ : Type} [DecidableEq γ] (hash : γ → Nat) (s : HSet γ)
       ∀ v, s'.insert hash v = .ok (s', false) := by
   obtain ⟨s', h1, _, h3, h4, h5⟩ := HSet.fill_spec h vs hnd hfresh hlen
   exact ⟨s', h1, h3, h4, h5⟩
+
+/-! ### Tie through the translator: the allocator of the source is the literal model's -/
+
+/-- `avl_tree.rs`: the translated `add` (free list first, else the sequence cursor; `none` = the "tree is full" panic) and
+    `remove_node` are the literal model's allocator. -/
+theorem translated_allocator_u32 (d : Rec α β) (m : TreeImage α β) :
+    (∀ k v, Gen32.add d m k v = Imp.add cfgU32 d m k v) ∧
+    (∀ i, i ≠ 0 → Gen32.remove_node d m i = ((Imp.removeNode d m i).1, some (Imp.removeNode d m i).2)) :=
+  ⟨Gen32.add_eq d m, fun i hi => Gen32.remove_node_eq d m i hi⟩
+
+/-- `u8_avl_tree.rs`: the translated `add` (free list first, else the sequence cursor; `none` = the "tree is full" panic) and
+    `remove_node` are the literal model's allocator. -/
+theorem translated_allocator_u8 (d : Rec α β) (m : TreeImage α β) :
+    (∀ k v, Gen8.add d m k v = Imp.add cfgU8 d m k v) ∧
+    (∀ i, i ≠ 0 → Gen8.remove_node d m i = ((Imp.removeNode d m i).1, some (Imp.removeNode d m i).2)) :=
+  ⟨Gen8.add_eq d m, fun i hi => Gen8.remove_node_eq d m i hi⟩
 
 end Stevia.C07
